@@ -404,7 +404,9 @@ def r6(facts, res, file_pred):
 
 
 
-BUFSIZE_EXCLUDED = {'FileAndMemReader::read': 'the count is num * size elements; destination capacity is decided per call site by C01.R1c'}
+BUFSIZE_EXCLUDED = {'FileAndMemReader::read': 'the count is num * size elements; destination capacity is decided per call site by C01.R1c',
+                    'CopySamplesTransformed': 'the count is in frames, the source holds two samples per frame; the addressing is decided by C13.R3',
+                    'CopySamplesRaw': 'as CopySamplesTransformed'}
 
 
 def r7(facts):
@@ -416,7 +418,8 @@ def r7(facts):
         if fn.relfile() not in e2prog.CORE_FILES or fn.tree is None or fn.name in seen or fn.name in BUFSIZE_EXCLUDED:
             continue
         pp = [p for p in fn.params if p['t'].get('p')]
-        sz = [p for p in fn.params if not p['t'].get('p') and p['t'].get('w') and re.fullmatch(r'size|length|len', p['n'], re.I)]
+        # the element count: the one size_t parameter next to the pointer(s) (by type: parameter names are the author's business)
+        sz = [p for p in fn.params if not p['t'].get('p') and p['t'].get('w') == 64 and p['t'].get('u') and not p['t'].get('ref')]
         if not pp or len(sz) != 1:
             continue
         ids = {p['id'] for p in pp}
